@@ -59,14 +59,14 @@ impl Profile {
 	/// histories per shard
 	pub fn cases(&self, tier: Tier) -> u64 {
 		match self {
-			Profile::C01 => tier.pick(400, 6000),
+			Profile::C01 => tier.pick(800, 8000),
 			Profile::C03 => tier.pick(160, 4000),
 			Profile::C04 => tier.pick(400, 6000),
-			Profile::C06 => tier.pick(14, 140),
-			Profile::C07 => tier.pick(400, 6000),
-			Profile::C08 => tier.pick(200, 3000),
-			Profile::C09 => tier.pick(12, 150),
-			Profile::C10 => tier.pick(90, 1400),
+			Profile::C06 => tier.pick(60, 400),
+			Profile::C07 => tier.pick(1500, 12000),
+			Profile::C08 => tier.pick(450, 4000),
+			Profile::C09 => tier.pick(40, 300),
+			Profile::C10 => tier.pick(280, 3000),
 			Profile::C11 => tier.pick(70, 1000),
 			Profile::C14 => tier.pick(60, 900),
 		}
